@@ -266,7 +266,8 @@ PROPS["C02"] = dict(
 PROPS["C03"] = dict(
     module="UpfVerif.Props.C03",
     streams=[dict(name="drv", args=["corpus=/verif/corpus/drvmal.lines"], shards=4, shards_thorough=16, seed_per_shard=True, timeout=600, timeout_thorough=3000),
-             _ctl(-1, "mix", cases=16, tcases=160)],   # the session layer above the driver: every Update IE for a rule the session has reaches the data plane
+             _ctl(-1, "mix", cases=16, tcases=160),
+             dict(name="perio", shards=2, shards_thorough=6, seed_per_shard=True, timeout=600, timeout_thorough=3000)],   # the session layer above the driver: every Update IE for a rule the session has reaches the data plane
     rule="S-drv: random Create/Update QER/URR/BAR grouped IEs: rates over the full 40-bit range (UL != DL), all gate/QFI/RQI/PPI octets, 2- and 3-octet trigger words, "
          "measurement periods incl. 0 and 2^32-1 s, 64-bit volumes with every flag subset, children shuffled; periodic registration read from the real perio.Server after each URR operation",
     trusted_base=_DRV_TB, assumptions=_DRV_ASSUME + ["Measurement Period as a kernel attribute is outside the statement (the periodic server, not the kernel, times the reports)"],
